@@ -603,8 +603,10 @@ fn descendant_and_self(node: dom::XmlNode) -> Vec<dom::XmlNode> {
 fn following(node: dom::XmlNode) -> Vec<dom::XmlNode> {
     let mut nodes = vec![];
 
-    for n in following_sibling(node) {
-        nodes.append(&mut descendant_and_self(n));
+    for a in ancestor_and_self(node) {
+        for n in following_sibling(a) {
+            nodes.append(&mut descendant_and_self(n));
+        }
     }
 
     nodes
@@ -637,10 +639,12 @@ fn namespace(node: dom::XmlNode) -> Vec<dom::XmlNode> {
 fn preceding(node: dom::XmlNode) -> Vec<dom::XmlNode> {
     let mut nodes = vec![];
 
-    for p in preceding_sibling(node) {
-        let mut desc = descendant_and_self(p);
-        desc.reverse();
-        nodes.append(&mut desc);
+    for a in ancestor_and_self(node) {
+        for p in preceding_sibling(a) {
+            let mut desc = descendant_and_self(p);
+            desc.reverse();
+            nodes.append(&mut desc);
+        }
     }
 
     nodes
